@@ -8,6 +8,7 @@ time; U3 no user time-dependent callable is reached from a site outside U1.
 from __future__ import annotations
 
 import ast
+from fractions import Fraction
 from typing import Dict, List, Optional, Set, Tuple
 
 from oqv import roles, rolebind
@@ -30,7 +31,8 @@ U3_EXEMPT = {
     "system:TimeDependentSystemWithField.__init__": "dimension probe at the fixed time 1.0",
     "system:MeanFieldSystem.__init__": "dimension probe at the fixed time 1.0",
     "tempo:_max_tdependentsystem_frequency":
-        "parameter guessing samples linspace(start_time, end_time): shifts with both ends",
+        "parameter guessing evaluates the user callables at the sample times it is handed; that "
+        "these are points between start_time and end_time is rule U5",
     "tempo:_max_tdependentsystem_frequency.<locals>.<lambda>#0":
         "parameter guessing: time is the sampling variable",
 }
@@ -189,8 +191,25 @@ def u1_u3(prog: Program, chk: Check) -> None:
         if not consumer_calls:
             continue
         if u.qual in U3_EXEMPT:
+            # an exemption is a claim about the code: check its premise on every run
+            reason = U3_EXEMPT[u.qual]
+            if "fixed time" in reason or "test time" in reason:
+                du_x = tf.du(u) if not isinstance(u.node, ast.Lambda) else None
+                for c in consumer_calls:
+                    for (label, e) in _time_args(prog, u, c):
+                        v = e
+                        if du_x is not None and isinstance(e, ast.Name):
+                            d = du_x.unique_value(du_x.node_of(c), e.id)
+                            if d is not None and d.value is not None and not d.sel:
+                                v = d.value
+                        const = isinstance(v, ast.Constant) and isinstance(v.value, (int, float))
+                        chk.add("U3", u, f"exempt probe {label}({norm(e)})", const,
+                                "a literal probe time (shape / type check only)" if const else
+                                f"the exemption of {u.qual} rests on a probe at a fixed time, but "
+                                f"`{norm(e)}` is not a literal: the callable is evaluated at a "
+                                f"time this check does not follow", c)
             chk.add("U3", u, f"{len(consumer_calls)} evaluation(s) of user callables", None,
-                    exception_reason=U3_EXEMPT[u.qual])
+                    exception_reason=reason)
             continue
         du = tf.du(u) if not isinstance(u.node, ast.Lambda) else None
         for c in consumer_calls:
@@ -595,6 +614,77 @@ def u4(prog: Program, chk: Check) -> None:
                 "" , u.node)
 
 
+def u5(prog: Program, chk: Check) -> None:
+    chk.rule("U5", "parameter estimation looks at a time-dependent system where the computation "
+             "will take place: every grid of sample times handed to "
+             "_max_tdependentsystem_frequency (which evaluates H(t), the rates and the Lindblad "
+             "operators at those absolute times) is np.linspace(a, b, ..) with a and b points of "
+             "the time axis - forms in which the coefficients of start_time and end_time add up "
+             "to one, so that the grid shifts with the time origin (a grid over [0, end - start] "
+             "is right for the bath correlations, which depend on differences only, and wrong "
+             "for the system)", floor=2)
+    tf = TimeForms(prog)
+    sites = []
+    for u in prog.units.values():
+        if isinstance(u.node, ast.Lambda):
+            continue
+        for c in walk_local(u.node):
+            if isinstance(c, ast.Call) and call_name(c) == "_max_tdependentsystem_frequency":
+                sites.append((u, c))
+    if len(sites) < 2:
+        raise AnalysisError(f"U5: only {len(sites)} call(s) of _max_tdependentsystem_frequency")
+    callee = prog.unit("tempo:_max_tdependentsystem_frequency")
+    for (u, c) in sites:
+        du = tf.du(u)
+        chk.saw(u, du.cfg)
+        bound = {callee.params[i]: a for i, a in enumerate(c.args) if i < len(callee.params)}
+        bound.update({k.arg: k.value for k in c.keywords if k.arg})
+        times = bound.get(callee.params[1]) if len(callee.params) > 1 else None
+        if times is None:
+            raise AnalysisError(f"U5: sample times of the call at {u.loc(c)} not found")
+        nid = du.node_of(c)
+        # the grid expression: through locals and one-expression local helpers
+        grid = expand(du, nid, times, depth=6)
+        helper = None
+        if isinstance(grid, ast.Call) and isinstance(grid.func, ast.Name):
+            for v in prog.nested_units(u):
+                if v.name == grid.func.id and not isinstance(v.node, ast.Lambda):
+                    rets = [r for r in walk_local(v.node) if isinstance(r, ast.Return) and r.value is not None]
+                    if len(rets) == 1:
+                        helper = (v, rets[0])
+        owner, onid, g_expr = u, nid, grid
+        if helper is not None:
+            owner, g_expr = helper[0], helper[1].value
+            onid = tf.du(owner).node_of(helper[1])
+        if not (isinstance(g_expr, ast.Call) and (dotted(g_expr.func) or "").split(".")[-1]
+                in ("linspace", "arange") and len(g_expr.args) >= 2):
+            chk.add("U5", u, f"sample times {norm(times)[:50]}", None,
+                    f"not a linspace / arange grid: `{norm(g_expr)[:60]}`", c)
+            continue
+        for which, e in (("first", g_expr.args[0]), ("last", g_expr.args[1])):
+            f = tf.form(owner, onid, e)
+            if f is None and owner is not u:
+                # free variables of the helper: evaluate in the enclosing function
+                f = tf.form(u, nid, e)
+            weight = None
+            if f is not None:
+                weight = sum((cf for m, cf in f.terms.items()
+                              if m in ((("START", 1),), (("END", 1),))), Fraction(0))
+                mixed = [m for m in f.terms if any(s_ in ("START", "END") for (s_, _) in m)
+                         and m not in ((("START", 1),), (("END", 1),))]
+                if mixed:
+                    weight = None
+            ok = weight == 1
+            chk.add("U5", u, f"{which} sample time = {norm(e)[:40]}  [{f if f is not None else '?'}]",
+                    ok if (f is not None) else None,
+                    "a point of the time axis (shifts with the origin)" if ok else
+                    ("form not readable" if f is None else
+                     f"the coefficients of start_time and end_time add up to {weight}, not 1: the "
+                     f"grid does not move when the time origin does - the system is sampled on "
+                     f"another window than the one the computation runs over, so the estimated "
+                     f"parameters (and with them the returned time grid) depend on the origin"), c)
+
+
 def run(prog: Program, chk: Check) -> None:
     chk.explanation = (
         "Decides every place where an absolute time is manufactured or consumed: if each such "
@@ -614,3 +704,4 @@ def run(prog: Program, chk: Check) -> None:
     chk.call(u2, prog, chk)
     chk.call(u2b, prog, chk)
     chk.call(u4, prog, chk)
+    chk.call(u5, prog, chk)
